@@ -211,14 +211,19 @@ def simulated(chk, tagname):
                [(0., 400.), (1000., 1000.0005)]]                     # trailing GTI without events
     if chk.tier != 'quick':
         layouts += [[(50., 50.001), (200., 900.)], [(0., 1500.)]]
-    for i, gtis in enumerate(layouts):
-        for du in ((1,) if chk.tier == 'quick' else (1, 2, 3)):
+    from ixpeobssim.bin.xpobssim import PARSER
+    # the default dead time, and one comparable with the mean spacing of the events (several events inside one dead-time window are common)
+    runs = [(gtis, du, None) for gtis in layouts for du in ((1,) if chk.tier == 'quick' else (1, 2, 3))] + \
+           [(layouts[0], 1, 0.05)] + ([(layouts[1], 2, 0.2), (layouts[-1], 3, 0.02)] if chk.tier != 'quick' else [])
+    for i, (gtis, du, dt_) in enumerate(runs):
+        if True:
             with scratch() as d:
                 path = os.path.join(d, 'sim.fits')
-                desc = dict(op='simulate', config='toy_point_source.py', gtis=gtis, du=du, seed=int(g.integers(1, 10 ** 6)))
+                desc = dict(op='simulate', config='toy_point_source.py', gtis=gtis, du=du, seed=int(g.integers(1, 10 ** 6)), deadtime=dt_)
                 chk.case(desc, nontrivial=len(gtis) > 1)
+                over = dict(deadtime=dt_) if dt_ is not None else {}
                 try:
-                    simdrive.simulate(simdrive.config_path('toy_point_source.py'), path, gtis=gtis, du_id=du, seed=desc['seed'], duration=1500.)
+                    simdrive.simulate(simdrive.config_path('toy_point_source.py'), path, gtis=gtis, du_id=du, seed=desc['seed'], duration=1500., **over)
                 except Exception as e:
                     chk.fail('impl', 'simulation did not complete on GTIs %s: %s: %s' % (gtis, type(e).__name__, e),
                              dict(oracle='simulate', args=desc, error=str(e)))
@@ -229,8 +234,15 @@ def simulated(chk, tagname):
                     lt = numpy.array(ev['LIVETIME'], dtype=numpy.int64)
                     hd = h['EVENTS'].header
                     dead = 1.08e-3 if 'DEADTIME' not in hd else hd['DEADTIME']
-                from ixpeobssim.bin.xpobssim import PARSER
-                dead = PARSER.get_default('deadtime')
+                dead = PARSER.get_default('deadtime') if dt_ is None else dt_
+                # dead-time bookkeeping: no event is recorded while the detector is dead from an earlier recorded event, no live time is negative
+                if len(t) > 1 and (numpy.diff(t) < dead - 1e-9).any():
+                    j = int(numpy.where(numpy.diff(t) < dead - 1e-9)[0][0])
+                    chk.fail('impl', 'simulated file (dead time %r): rows %d, %d are %.6g s apart — recorded while the detector was dead' % (dead, j, j + 1, t[j + 1] - t[j]),
+                             dict(oracle='simulate', args=desc, row=j))
+                if (lt < 0).any():
+                    j = int(numpy.where(lt < 0)[0][0])
+                    chk.fail('impl', 'simulated file (dead time %r): LIVETIME[%d] = %d microseconds is negative' % (dead, j, lt[j]), dict(oracle='simulate', args=desc, row=j))
                 exp = []
                 prev = None
                 for x in t:
